@@ -221,6 +221,8 @@ def runUserSection (r : Report) (sec : Section) (user : String) (probes : List N
   let H := hasherOf "murmur" 1
   let kind := if user = "cache" then "t" else "p"
   let mut r := r.addCover s!"user-{user}"
+  -- the previous instance of this section: (membership as sorted (address, virtual nodes), conf, dispatch addresses)
+  let mut prevBuild : Option (List (String × Nat) × String × List String) := none
   for l in sec.lines do
     r := { r with ops := r.ops + 1 }
     match l.op with
@@ -248,6 +250,17 @@ def runUserSection (r : Report) (sec : Section) (user : String) (probes : List N
         match (kv? l.obs "g").map (fun g => g.splitOn ",") with
         | none => r := r.mismatch sec.idx l.idx "bad-obs" impl
         | some addrs =>
+          -- multi-instance: two instances built from the same membership (other order of the entries) dispatch alike
+          let norm := ((m.map fun p => (p.1.repr, p.2)).mergeSort fun a b => a.1 ≤ b.1)
+          match prevBuild with
+          | some (pm, pconf, paddrs) =>
+            if pm == norm && pconf ≠ conf && ops.length > 1 && (pconf.splitOn ",").length > 1 then
+              r := r.addCover "build-same-members-other-order"
+              for (k, a, b) in probes.zip (paddrs.zip addrs) do
+                if a ≠ b then
+                  r := r.violation sec.idx l.idx s!"history-dependent: {user} dispatch of {showOutcome (.node k)} goes to {b} but to {a} on an instance built from the same nodes and weights in another order, conf=[{conf}] other=[{pconf}]"
+          | none => pure ()
+          prevBuild := some (norm, conf, addrs)
           for (k, a) in probes.zip addrs do
             let o : Outcome := if a = "-" then .none else if a = "PANIC" then .panic else .node { kind := kind, repr := a }
             if !direct && !memberOk m o then
